@@ -4,7 +4,7 @@ import pickle
 
 from hypothesis import strategies as st
 
-from anytree import AnyNode, Node, SymlinkNode, SymlinkNodeMixin
+from anytree import AnyNode, LightNodeMixin, Node, SymlinkNode, SymlinkNodeMixin
 
 from .. import forest, mut, nodes, refs, shapes, strategies, values
 from ..core import Violation
@@ -26,7 +26,7 @@ ASSUMPTIONS = [
 BOOK = ("_NodeMixin__parent", "_NodeMixin__children")
 LINKS = ("SymlinkNode", "PlainLink", "PropLink", "SlotLink")
 NM_MIX = ["Node", "AnyNode", "PlainNM", "SymlinkNode", "EqNode", "FalsyNode", "LenNode", "SlotDictNM", "PlainLink", "PropLink", "SlotLink"]
-LM_MIX = ["SlotLM", "DictLM"]
+LM_MIX = ["SlotLM", "DictLM", "StrSlotLM"]
 
 
 def make(clsname, idx, attrs, target):
@@ -38,6 +38,8 @@ def make(clsname, idx, attrs, target):
         return nodes.PlainNM("p%d" % idx, **attrs)
     if clsname == "DictLM":
         return nodes.DictLM("d%d" % idx, **attrs)
+    if clsname == "StrSlotLM":
+        return nodes.StrSlotLM(["payload", idx, sorted(attrs.items())])
     if clsname == "SlotLM":
         node = nodes.SlotLM("s%d" % idx)
         if attrs:
@@ -81,6 +83,8 @@ def state_of(node):
         return []
     if isinstance(node, nodes.SlotLM):
         return [("name", node.name), ("tag", getattr(node, "tag", None))]
+    if isinstance(node, nodes.StrSlotLM):
+        return [("payload", getattr(node, "payload", "<payload missing>"))]
     slots = [("slot:" + k, getattr(node, k, "<unset>")) for k in nodes.Record.__slots__] if isinstance(node, nodes.Record) else []
     return slots + sorted((k, v) for k, v in vars(node).items() if not (k in BOOK or k.startswith("_NodeMixin__") or k.startswith("_LightNodeMixin__")))
 
@@ -179,13 +183,13 @@ def check_case(case, acc):
     victim = mapping[id(tree[-1])]
     victim.parent = None
     first = mapping[id(tree[0])]
-    if not isinstance(first, (SymlinkNodeMixin, nodes.SlotLM)):
+    if not isinstance(first, (SymlinkNodeMixin, nodes.SlotLM, nodes.StrSlotLM)):
         first.extra_attribute = "changed"
     else:
         del first.children
     # a fresh node attached below one copied leaf shows up there and nowhere else
     for leaf in [c for c in copies if not c.children]:
-        fresh = nodes.SlotLM("fresh") if isinstance(leaf, (nodes.SlotLM, nodes.DictLM)) else Node("fresh")
+        fresh = nodes.SlotLM("fresh") if isinstance(leaf, LightNodeMixin) else Node("fresh")
         fresh.parent = leaf
         problem = mut.consistency_problem(copies + [fresh], forest.Labels(copies + [fresh]))
         if problem:
@@ -203,10 +207,28 @@ def check_case(case, acc):
     tree[-1].parent = None
     if len(tree) > 2:
         tree[1].children = []
-    if not isinstance(tree[0], (SymlinkNodeMixin, nodes.SlotLM)):
+    if not isinstance(tree[0], (SymlinkNodeMixin, nodes.SlotLM, nodes.StrSlotLM)):
         tree[0].extra_attribute = "changed too"
     if full_state(copies) != snap_copy:
         raise Violation("independence", "%s: mutating the original changed the copy" % ctx)
+    # the two trees can exchange nodes like any two trees: an ORIGINAL node moved below the copy of its former parent
+    # becomes that node's last child, next to its own copy
+    mover = next((n for n in reversed(tree) if n.parent is not None and id(n) in mapping and id(n.parent) in mapping), None)
+    if mover is not None:
+        host = mapping[id(mover.parent)]
+        expected = list(host.children) + [mover]
+        old_parent = mover.parent
+        old_siblings = [c for c in old_parent.children if c is not mover]
+        mover.parent = host
+        if len(host.children) != len(expected) or any(a is not b for a, b in zip(host.children, expected)):
+            raise Violation("independence", "%s: after moving an original node below the copy of its former parent, that copy has %d children instead of %d" % (ctx, len(host.children), len(expected)))
+        if any(a is not b for a, b in zip(old_parent.children, old_siblings)) or len(old_parent.children) != len(old_siblings):
+            raise Violation("independence", "%s: the original parent did not release the moved node correctly" % ctx)
+        pool = copies + [mover] + list(mover.descendants)
+        problem = mut.consistency_problem(pool, forest.Labels(pool))
+        if problem:
+            raise Violation("consistency", "%s: after moving an original node into the copied tree: %s" % (ctx, problem))
+        acc.tag("original_node_moved_into_the_copy")
     has_link = any(c in LINKS for c in case["tree"]["classes"])
     acc.nontrivial(len(tree) >= 4 and (case["entry"] != 0 or has_link))
     acc.tag("method:" + method)
@@ -226,7 +248,7 @@ SCHEMES = [
     ("nm-slotdict", ["SlotDictNM", "Node", "SlotDictNM"], NM_METHODS[2:]),
     ("nm-userlinks", ["Node", "PropLink", "SlotLink", "PlainLink"], NM_METHODS[2:]),
     ("lm-slots", ["SlotLM"], LM_METHODS),
-    ("lm-mix", ["DictLM", "SlotLM"], LM_METHODS),
+    ("lm-mix", ["DictLM", "SlotLM", "StrSlotLM"], LM_METHODS),
 ]
 SAMPLE_ATTRS = [[["a", {"t": "int", "v": 1}], ["b", {"t": "list", "v": [{"t": "str", "v": "x"}]}]], [], [["c", {"t": "dict", "v": [["k", {"t": "none"}]]}]]]
 
